@@ -294,9 +294,6 @@ impl PhoneticSuggestion {
                             _ => (),
                         }
                         selected.push_str(suffix);
-
-                        // Save this for future reuse.
-                        selections.insert(string.word().to_string(), selected.to_string());
                     }
                 }
             }
